@@ -33,6 +33,7 @@ ASSUME = {
         "outside the grid = guard bytes directly before / after the mapped frame buffer and the logo rows; row padding and partial cells are not compared (VesaFbConsole.Scroll copies whole rows: C19)",
         "the consoles are built through exported API only (New*, DriverInit, SetLogo, SetFont); the overlay shim harness/tty/c18_console_shim.go binds the two hardware seams (mapRegionFn, portWriteByteFn) to host memory, as the repository's own console tests do",
         "SetState(inactive) itself is not constrained (the statement speaks about writes while active / inactive and about activation)",
+        "terminals are attached while inactive and activated afterwards (the order hal.linkTTYToConsole uses); between checkpoints of big screens only the calls, the call count and the bytes outside the grid are judged",
     ],
 }
 
@@ -77,6 +78,9 @@ def _go(ctx, prop, test, env, timeout):
 def _split(path, max_events):
     """Split a recorded file at case boundaries into parts of at most ~max_events events (TLC reads a whole
     part into memory)."""
+    with open(path) as f:
+        if sum(1 for _ in f) <= max_events * 5 // 4:
+            return [path]
     parts, out, n, k = [], None, 0, 0
     with open(path) as f:
         for line in f:
@@ -115,7 +119,8 @@ def _judge(ctx, prop, name, paths, parallel, timeout):
                                       name=name if len(parts) == 1 else "%s.%d" % (name, i),
                                       parallel=parallel, timeout=timeout)
         acc, nev, mism = acc + a, nev + e, mism + m
-        os.remove(pp)
+        if len(parts) > 1:
+            open(pp, "w").close()       # free the space (vlib names work files by directory count: never delete)
         if mism:
             break
     inputs = {}
@@ -189,9 +194,10 @@ def run_tty(ctx, prop):
             if prop == "C18":
                 ctx.model_check(d, "MCVT", "MCVT18FbQuick", workers=1, timeout=600)
         else:
-            ctx.model_check(d, "MCVT", "MCVT%sFull" % n, timeout=2400)          # all 81 geometries, 5 operations
-            ctx.model_check(d, "MCVT", "MCVT%sFullDeep" % n, timeout=2400)      # 3x3+2 tab 2, 7 operations
-            ctx.model_check(d, "MCVT", "MCVT%sFullDeep2" % n, timeout=2400)     # 2x2+1 tab 2, 8 operations
+            ce = dict(seedenv, CASES=cases)
+            ctx.model_check(d, "MCVT", "MCVT%sFull" % n, env=ce, timeout=2400)          # all 81 geometries, 5 operations
+            ctx.model_check(d, "MCVT", "MCVT%sFullDeep" % n, env=ce, timeout=2400)      # 3x3+2 tab 2, 7 operations
+            ctx.model_check(d, "MCVT", "MCVT%sFullDeep2" % n, env=ce, timeout=2400)     # 2x2+1 tab 2, 8 operations
             if prop == "C18":
                 ctx.model_check(d, "MCVT", "MCVT18FbFull", timeout=1200)
             r = ctx.model_check(d, "MCVT", "MCVT%sEmitFull" % n, env=dict(seedenv, CASES=cases), workers=1,
@@ -221,10 +227,11 @@ def run_tty(ctx, prop):
         _judge(ctx, prop, "T-random", tr_t, 16, 2400)
     ctx.cov["exhaustive"] = (not q) and not ctx.violations
     ctx.cov["explanation"] = (
-        "thorough: for every distinct state TLC found within 3 operations in each of the 81 geometries, every one of "
-        "the 44 operations of the scope was replayed on the real code (every transition of the explored graph up to "
-        "depth 4) and judged; quick: the path to a seeded quarter of the distinct states (3 operations, all geometries) "
-        "and to half of those of the 2x2+1 geometry at 6 operations")
+        "thorough: for every distinct (state, depth) TLC found within 2 operations in each of the 81 geometries, every "
+        "one of the 44 operations of the scope was replayed on the real code (every transition of the explored graph "
+        "up to depth 3) and judged, plus the path to a seeded 1/16 of the states of the 5-operation (all geometries) and "
+        "7-operation (3x3+2) runs and 1/4 of the 8-operation 2x2+1 run; quick: the path to a seeded quarter of the states "
+        "(3 operations, all geometries; 6 operations, 2x2+1)")
 
 
 def replay_tty(ctx, prop, path):
